@@ -2,7 +2,10 @@ package c06
 
 import (
 	"fmt"
+	"path/filepath"
 	"sort"
+	"strings"
+	"time"
 
 	"github.com/go-critic/go-critic/linter"
 
@@ -77,4 +80,105 @@ func inertParameters(meta *common.Meta, outDir string) int {
 		}
 	}
 	return n
+}
+
+// inertOutOfDomain: "a checker that is not selected is never initialised, so its parameters are inert" — also for
+// values no constructor would accept. Every parameter of every checker EXCEPT the selected one is set to boundary
+// and out-of-domain values of its type (negative, zero, huge and minimal integers; empty, unknown and
+// separator-only strings; both booleans) on all four binaries; the run must select exactly the one checker and
+// must not fail. When a batch fails, each flag is retried alone so that the witness names the parameter.
+func inertOutOfDomain(meta *common.Meta, ws string, env []string, bin string) int {
+	selected := ""
+	for _, info := range linter.GetCheckersInfo() {
+		if len(info.Params) == 0 && info.Name == "sloppyLen" {
+			selected = info.Name
+		}
+	}
+	if selected == "" {
+		for _, info := range linter.GetCheckersInfo() {
+			if len(info.Params) == 0 {
+				selected = info.Name
+				break
+			}
+		}
+	}
+	type class struct {
+		name string
+		i    string
+		s    string
+		b    string
+	}
+	classes := []class{
+		{"negative/empty/true", "-1", "", "true"},
+		{"zero/unknown/false", "0", "verif-unknown-value", "false"},
+		{"huge/separators/true", "4611686018427387904", " , ,", "true"},
+		{"minimal/blank/false", "-9223372036854775808", " ", "false"},
+	}
+	flagsOf := func(c class) []string {
+		var out []string
+		for _, info := range linter.GetCheckersInfo() {
+			if info.Name == selected {
+				continue
+			}
+			var names []string
+			for n := range info.Params {
+				names = append(names, n)
+			}
+			sort.Strings(names)
+			for _, n := range names {
+				v := ""
+				switch info.Params[n].Value.(type) {
+				case bool:
+					v = c.b
+				case int:
+					v = c.i
+				case string:
+					v = c.s
+				}
+				out = append(out, "-@"+info.Name+"."+n+"="+v)
+			}
+		}
+		return out
+	}
+	runs := 0
+	try := func(exe string, flags []string) (ok bool, detail string) {
+		var args []string
+		if exe == "go-critic" || exe == "gocritic" {
+			args = append([]string{"check", "-v", "-enable=" + selected}, flags...)
+		} else {
+			args = append([]string{"-debug-init", "-enable=" + selected, "-disable="}, flags...)
+		}
+		args = append(args, "./...")
+		out, code, err := common.Run(120*time.Second, ws, env, filepath.Join(bin, exe), args...)
+		runs++
+		if err != nil {
+			return false, "did not finish: " + err.Error()
+		}
+		got := parseEnabled(out)
+		if len(got) != 1 || got[0] != selected || (code != 0 && code != 1 && code != 3) ||
+			strings.Contains(out, "init checkers:") || strings.Contains(out, "assign checker params:") || strings.Contains(out, "parse args:") || strings.Contains(out, "init error") || strings.Contains(out, "panic:") {
+			return false, fmt.Sprintf("exit=%d enabled=%v output: %s", code, head(got, 4), tail(out))
+		}
+		return true, ""
+	}
+	for _, exe := range []string{"go-critic", "gocritic", "go-critic-analysis", "gocritic-analysis"} {
+		for _, c := range classes {
+			flags := flagsOf(c)
+			ok, detail := try(exe, flags)
+			if ok {
+				continue
+			}
+			culprits := 0
+			for _, f := range flags {
+				if ok1, d1 := try(exe, []string{f}); !ok1 {
+					culprits++
+					meta.Fail("C06/"+exe+"/e2e-inert-params-out-of-domain", fmt.Sprintf("%s with only %s selected fails because of %s, a parameter of a checker that is not selected: %s", exe, selected, f, d1), map[string]interface{}{"exe": exe, "flag": f, "selected": selected, "value_class": c.name})
+				}
+			}
+			if culprits == 0 {
+				meta.Fail("C06/"+exe+"/e2e-inert-params-out-of-domain", fmt.Sprintf("%s with only %s selected fails when every other checker's parameters are set to %s values: %s", exe, selected, c.name, detail), map[string]interface{}{"exe": exe, "flags": flags, "selected": selected})
+			}
+		}
+	}
+	return runs
 }
